@@ -23,7 +23,7 @@ pub const MAXV: usize = 10;
 pub fn clause_of(op: &Op) -> Vec<(usize, bool)> {
     op.a.iter()
         .filter(|l| **l != 0)
-        .map(|l| ((l.unsigned_abs() as usize - 1) % 12, *l > 0))
+        .map(|l| ((l.unsigned_abs() as usize - 1) % 64, *l > 0))
         .collect()
 }
 
@@ -75,6 +75,103 @@ pub fn gen_clause(o: &mut Rng, nv: u64) -> [i64; 4] {
     a
 }
 
+/// complete satisfiability oracle for the large instances (plain DPLL with unit propagation,
+/// written for the harness; shares nothing with rsdd)
+pub fn dpll_sat(clauses: &[Vec<(usize, bool)>], assumptions: &[(usize, bool)], nv: usize) -> bool {
+    fn go(clauses: &[Vec<(usize, bool)>], asg: &mut Vec<Option<bool>>) -> bool {
+        // unit propagation to fixpoint
+        let mut trail: Vec<usize> = Vec::new();
+        loop {
+            let mut unit: Option<(usize, bool)> = None;
+            for c in clauses {
+                let mut sat = false;
+                let mut free: Option<(usize, bool)> = None;
+                let mut nfree = 0;
+                for (v, p) in c {
+                    match asg[*v] {
+                        Some(b) if b == *p => {
+                            sat = true;
+                            break;
+                        }
+                        Some(_) => {}
+                        None => {
+                            if free != Some((*v, *p)) {
+                                if free.map(|f| f.0 == *v).unwrap_or(false) {
+                                    // both polarities of one variable: tautological remainder
+                                    sat = true;
+                                    break;
+                                }
+                                nfree += 1;
+                                free = Some((*v, *p));
+                            }
+                        }
+                    }
+                }
+                if sat {
+                    continue;
+                }
+                if nfree == 0 {
+                    for v in trail {
+                        asg[v] = None;
+                    }
+                    return false;
+                }
+                if nfree == 1 {
+                    unit = free;
+                    break;
+                }
+            }
+            match unit {
+                Some((v, p)) => {
+                    asg[v] = Some(p);
+                    trail.push(v);
+                }
+                None => break,
+            }
+        }
+        // branch
+        let mut pick: Option<usize> = None;
+        for c in clauses {
+            if c.iter().any(|(v, p)| asg[*v] == Some(*p)) {
+                continue;
+            }
+            if let Some((v, _)) = c.iter().find(|(v, _)| asg[*v].is_none()) {
+                pick = Some(*v);
+                break;
+            }
+        }
+        let r = match pick {
+            None => true,
+            Some(v) => {
+                let mut ok = false;
+                for b in [true, false] {
+                    asg[v] = Some(b);
+                    if go(clauses, asg) {
+                        ok = true;
+                    }
+                    asg[v] = None;
+                    if ok {
+                        break;
+                    }
+                }
+                ok
+            }
+        };
+        for v in trail {
+            asg[v] = None;
+        }
+        r
+    }
+    let mut asg: Vec<Option<bool>> = vec![None; nv.max(1)];
+    for (v, p) in assumptions {
+        match asg[*v] {
+            Some(b) if b != *p => return false,
+            _ => asg[*v] = Some(*p),
+        }
+    }
+    go(clauses, &mut asg)
+}
+
 struct Shadow {
     model: Vec<Option<bool>>,
     hash: u128,
@@ -101,10 +198,33 @@ impl World for SatWorld {
         let mut s = Rng::stream(run_seed, "schedule");
         // mostly up to 6 variables / 8 clauses; one run in four goes up to 10 variables / 14 clauses
         let wide = c.below(4) == 0;
-        let nv = if wide { 5 + c.below(6) } else { 1 + c.below(6) };
+        // one run in six is a large instance (11-60 variables, up to 300 clauses) judged by a DPLL oracle
+        let big = c.below(6) == 0;
+        let nv = if big { 11 + c.below(50) } else if wide { 5 + c.below(6) } else { 1 + c.below(6) };
         cfg.insert("nv".into(), nv as i64);
+        cfg.insert("big".into(), big as i64);
         cfg.insert("arena".into(), 1);
-        let mut ops = gen_cnf_ops(&mut c, &mut o, nv, if wide { 14 } else { 8 });
+        let mut ops = if big {
+            let many = c.below(3) == 0;
+            let ncl = 10 + c.below(if many { 290 } else { 70 });
+            let mut v = Vec::new();
+            for _ in 0..ncl {
+                // mostly ternary clauses over many variables, some units to start propagation
+                let mut a = [0i64; 4];
+                let sz = match o.below(20) { 0 => 1, 1..=4 => 2, 5..=16 => 3, _ => 4 };
+                for slot in a.iter_mut().take(sz) {
+                    let x = o.below(nv) as i64 + 1;
+                    *slot = if o.bool() { x } else { -x };
+                }
+                v.push(Op { c: 0, k: K_CLAUSE, a });
+                if o.below(12) == 0 {
+                    v.push(Op { c: 0, k: K_CLAUSE_EXT, a: gen_clause(&mut o, nv) });
+                }
+            }
+            v
+        } else {
+            gen_cnf_ops(&mut c, &mut o, nv, if wide { 14 } else { 8 })
+        };
         let ncallers = 1 + c.below(3);
         let pop_w = 15 + c.below(40);
         let len = 1 + o.below(if thorough { 120 } else { 50 });
@@ -113,7 +233,7 @@ impl World for SatWorld {
             if o.below(100) < pop_w {
                 ops.push(Op { c: caller, k: K_POP, a: [0; 4] });
             } else {
-                ops.push(Op { c: caller, k: K_DECIDE, a: [o.below(12) as i64, o.below(2) as i64, 0, 0] });
+                ops.push(Op { c: caller, k: K_DECIDE, a: [o.below(if big { 64 } else { 12 }) as i64, o.below(2) as i64, 0, 0] });
             }
         }
         Plan {
@@ -128,7 +248,8 @@ impl World for SatWorld {
 
     fn execute(&self, plan: &Plan, ctx: &mut Ctx) -> R {
         ctx.cur_prop = "C09";
-        let clauses_in: Vec<Vec<(usize, bool)>> = clauses_of_plan(&plan.ops, MAXV);
+        let big = plan.get_or("big", 0) != 0;
+        let clauses_in: Vec<Vec<(usize, bool)>> = clauses_of_plan(&plan.ops, if big { 64 } else { MAXV });
         let lits: Vec<Vec<Literal>> = clauses_in
             .iter()
             .map(|c| c.iter().map(|(v, p)| Literal::new(VarLabel::new(*v as u64), *p)).collect())
@@ -142,9 +263,13 @@ impl World for SatWorld {
             .map(|c| c.iter().map(|l| (l.label().value_usize(), l.polarity())).collect())
             .collect();
         // all models of the *input* clauses (independent of the library's normalisation)
-        let models: Vec<u32> = (0..(1u32 << nv))
-            .filter(|m| clauses_in.iter().all(|c| c.iter().any(|(v, p)| ((m >> v) & 1 == 1) == *p)))
-            .collect();
+        // (large instances: no enumeration; a DPLL oracle answers the satisfiability questions instead)
+        let small = nv <= MAXV;
+        let models: Vec<u32> = if small {
+            (0..(1u32 << nv)).filter(|m| clauses_in.iter().all(|c| c.iter().any(|(v, p)| ((m >> v) & 1 == 1) == *p))).collect()
+        } else {
+            Vec::new()
+        };
         ctx.ev(40, &[nv as u64, clauses.len() as u64, models.len() as u64]);
         ctx.note(|| format!("cnf over {nv} vars: {:?}; {} models", clauses_in, models.len()));
 
@@ -183,8 +308,9 @@ impl World for SatWorld {
         let solver = SATSolver::new(cnf.clone());
         let mut solver = match solver {
             None => {
-                ctx.check("C09", "sat-unsat-at-construction-only-if-no-model", models.is_empty(), || {
-                    format!("SATSolver::new reported UNSAT but the CNF {:?} has {} model(s), e.g. {:#b}", clauses_in, models.len(), models[0])
+                let no_model = if small { models.is_empty() } else { !dpll_sat(&clauses_in, &[], nv) };
+                ctx.check("C09", "sat-unsat-at-construction-only-if-no-model", no_model, || {
+                    format!("SATSolver::new reported UNSAT but the CNF over {nv} variables with {} clauses is satisfiable", clauses_in.len())
                 })?;
                 ctx.nontrivial = false;
                 return Ok(());
@@ -207,7 +333,7 @@ impl World for SatWorld {
         let mut seen_hash: BTreeMap<u128, Vec<Vec<(usize, bool)>>> = BTreeMap::new();
 
         // all invariants of a reachable state
-        let mut check_state = |ctx: &mut Ctx, s: &SATSolver, decisions: &[(usize, bool)], what: &str| -> R {
+        let mut check_state = |ctx: &mut Ctx, s: &SATSolver, decisions: &[(usize, bool)], what: &str, entailed_before: &std::collections::BTreeSet<(usize, bool)>| -> R {
             let m = read_model(s);
             // 1. soundness: every assigned value is entailed by CNF + decisions
             let consistent: Vec<u32> = models
@@ -217,10 +343,20 @@ impl World for SatWorld {
                 .collect();
             for v in 0..nv {
                 if let Some(b) = m[v] {
-                    let bad = consistent.iter().find(|mm| ((*mm >> v) & 1 == 1) != b);
-                    ctx.check("C09", "sat-assigned-value-entailed", bad.is_none(), || {
-                        format!("{what}: x{v} is assigned {b} but model {:#b} of the CNF extends the decisions {:?} with x{v}={}", bad.unwrap(), decisions, !b)
-                    })?;
+                    if small {
+                        let bad = consistent.iter().find(|mm| ((*mm >> v) & 1 == 1) != b);
+                        ctx.check("C09", "sat-assigned-value-entailed", bad.is_none(), || {
+                            format!("{what}: x{v} is assigned {b} but model {:#b} of the CNF extends the decisions {:?} with x{v}={}", bad.unwrap(), decisions, !b)
+                        })?;
+                    } else if !entailed_before.contains(&(v, b)) {
+                        // entailment by refutation: CNF + decisions + (x_v = !b) must be unsatisfiable
+                        let mut asm: Vec<(usize, bool)> = decisions.to_vec();
+                        asm.push((v, !b));
+                        let refuted = !dpll_sat(&clauses_in, &asm, nv);
+                        ctx.check("C09", "sat-assigned-value-entailed", refuted, || {
+                            format!("{what}: x{v} is assigned {b} but the CNF together with the decisions {:?} and x{v}={} is satisfiable", decisions, !b)
+                        })?;
+                    }
                 }
                 ctx.check("C09", "sat-is-set-matches-model", s.is_set(VarLabel::new(v as u64)) == m[v].is_some(), || {
                     format!("{what}: is_set(x{v}) disagrees with the model")
@@ -269,7 +405,8 @@ impl World for SatWorld {
         };
 
         let mut stack: Vec<Shadow> = Vec::new();
-        check_state(ctx, &solver, &[], "after construction")?;
+        let lits_of = |m: &Vec<Option<bool>>| -> std::collections::BTreeSet<(usize, bool)> { m.iter().enumerate().filter_map(|(v, x)| x.map(|b| (v, b))).collect() };
+        check_state(ctx, &solver, &[], "after construction", &Default::default())?;
         stack.push(Shadow {
             model: read_model(&solver),
             hash: solver.cur_hash(),
@@ -305,10 +442,17 @@ impl World for SatWorld {
                     match res {
                         DecisionResult::UNSAT => {
                             n_unsat += 1;
-                            let ext = models.iter().find(|mm| decisions.iter().all(|(v, p)| ((*mm >> v) & 1 == 1) == *p));
-                            ctx.check("C09", "sat-unsat-only-if-no-model-extends", ext.is_none(), || {
-                                format!("decide(x{v}={p}) reported UNSAT but model {:#b} of the CNF extends the decisions {:?}", ext.unwrap(), decisions)
-                            })?;
+                            if small {
+                                let ext = models.iter().find(|mm| decisions.iter().all(|(v, p)| ((*mm >> v) & 1 == 1) == *p));
+                                ctx.check("C09", "sat-unsat-only-if-no-model-extends", ext.is_none(), || {
+                                    format!("decide(x{v}={p}) reported UNSAT but model {:#b} of the CNF extends the decisions {:?}", ext.unwrap(), decisions)
+                                })?;
+                            } else {
+                                let sat = dpll_sat(&clauses_in, &decisions, nv);
+                                ctx.check("C09", "sat-unsat-only-if-no-model-extends", !sat, || {
+                                    format!("decide(x{v}={p}) reported UNSAT but the CNF is satisfiable together with the decisions {:?}", decisions)
+                                })?;
+                            }
                             // a refused decision pushes nothing: the state is the one before
                             let top = stack.last().unwrap();
                             let same = read_model(&solver) == top.model && solver.cur_hash() == top.hash && solver.is_sat() == top.is_sat && solver.verif_depth() == base_depth + stack.len() - 1;
@@ -318,7 +462,8 @@ impl World for SatWorld {
                         }
                         _ => {
                             n_push += 1;
-                            check_state(ctx, &solver, &decisions, "after decide")?;
+                            let verified = lits_of(&stack.last().unwrap().model);
+                            check_state(ctx, &solver, &decisions, "after decide", &verified)?;
                             let is_sat_now = solver.is_sat();
                             ctx.check("C09", "sat-decide-result-matches-flag", matches!(res, DecisionResult::SAT) == is_sat_now, || {
                                 format!("decide returned {} but is_sat() = {is_sat_now}", ["SAT", "UNSAT", "Unknown"][code as usize])
@@ -368,7 +513,8 @@ impl World for SatWorld {
                         format!("after pop is_sat() = {}; before the matching decision it was {}", solver.is_sat(), top.is_sat)
                     })?;
                     let decisions = top.decisions.clone();
-                    check_state(ctx, &solver, &decisions, "after pop")?;
+                    let verified = lits_of(&top.model);
+                    check_state(ctx, &solver, &decisions, "after pop", &verified)?;
                 }
                 _ => {}
             }
@@ -377,6 +523,7 @@ impl World for SatWorld {
         ctx.count("decisions-refused", n_unsat);
         ctx.count("pops", n_pop);
         ctx.count("hash-check-applicable", product_fits as u64);
+        ctx.count("large-instances(dpll-oracle)", (!small) as u64);
         ctx.nontrivial = n_push >= 1 && !clauses.is_empty();
         ctx.states.extend(seen_hash.keys().map(|h| mix(*h as u64, (*h >> 64) as u64)));
         Ok(())
